@@ -568,4 +568,40 @@ def fills_one(rep, u, rule):
 
 
 def c02(rep):
-    pass
+    """R02.5 (C): the C query methods read only the implied set."""
+    u = cu(rep)
+    f = u.func('SB_extends')
+    g = ccfg(f)
+    impl = [v for n in g.nodes for k, v in c_assigned(n).items() if k == 'implied' and v is not None]
+    okimpl = len(impl) == 1 and show(impl[0]) == 'self->_implied'
+    tests = [n for n in g.nodes if n.kind == 'test' and
+             show(n.e) == '(PyDict_GetItem(implied, other) != NULL)']
+    ok = okimpl and len(tests) == 1
+    if ok:
+        t = tests[0]
+        tt = [m for m, lab in t.succ if lab == 'T']
+        ff = [m for m, lab in t.succ if lab == 'F']
+        ok = bool(tt) and bool(ff) and show(tt[0].e) == 'return Py_True' and \
+            show(ff[0].e) == 'return Py_False'
+    ccheck(rep, 'R02.5', 'SB_extends', ok,
+           'isOrExtends(other) = other is a key of self->_implied', construct='membership')
+    for fn, src in (('SB_providedBy', 'providedBy(module, ob)'),
+                    ('SB_implementedBy', 'implementedBy(module, cls)')):
+        f = u.func(fn)
+        g = ccfg(f)
+        d = [v for n in g.nodes for k, v in c_assigned(n).items() if k == 'decl' and v is not None]
+        okd = len(d) == 1 and show(d[0]) == src
+        items = sorted(show(v) for n in g.nodes for k, v in c_assigned(n).items()
+                       if k == 'item' and v is not None)
+        okitems = items == sorted(['SB_extends(decl, self)',
+                                   'PyObject_CallFunctionObjArgs(decl, self, NULL)'])
+        rets = sorted(show(r.e.a[0]) for r in returns(g))
+        ccheck(rep, 'R02.5', fn, okd and okitems and rets == ['NULL', 'item'],
+               'tests membership of self in the implied set of %s (direct for '
+               'specification objects, by calling the declaration otherwise): %s'
+               % (src, items), construct='membership')
+    tbl = dict((n, fn) for n, fn, _ in u.method_table('SB_methods'))
+    ccheck(rep, 'R02.5', 'SB_methods',
+           tbl.get('isOrExtends') == 'SB_extends' and tbl.get('providedBy') == 'SB_providedBy'
+           and tbl.get('implementedBy') == 'SB_implementedBy',
+           'method table %s' % tbl, construct='table')
